@@ -160,6 +160,16 @@ impl SocketTrait for SimSocket {
             let mut n = self.net.inner.lock().unwrap();
             let ib = n.inboxes.get_mut(&self.addr).expect("inbox");
             if let Some((bytes, from)) = ib.queue.pop_front() {
+                if from == recv_error_marker() {
+                    // an injected receive error (what recv_from reports after e.g. an ICMP error was queued)
+                    let kind = match bytes.as_slice() {
+                        b"ConnectionRefused" => io::ErrorKind::ConnectionRefused,
+                        b"Interrupted" => io::ErrorKind::Interrupted,
+                        b"Other" => io::ErrorKind::Other,
+                        _ => io::ErrorKind::ConnectionReset,
+                    };
+                    return Poll::Ready(Err(io::Error::new(kind, "simulated receive error")));
+                }
                 let l = bytes.len().min(buf.len());
                 buf[..l].copy_from_slice(&bytes[..l]);
                 Poll::Ready(Ok((l, from)))
@@ -174,6 +184,11 @@ impl SocketTrait for SimSocket {
     fn local_addr(&self) -> io::Result<SocketAddr> {
         Ok(self.addr)
     }
+}
+
+/// Source address marking an inbox entry that is a receive error, not a datagram.
+pub fn recv_error_marker() -> SocketAddr {
+    "0.0.0.0:0".parse().unwrap()
 }
 
 // ---------------------------------------------------------------------------------------------
@@ -201,6 +216,9 @@ pub enum When {
 #[derive(Clone, Debug)]
 pub enum Action {
     Search { node: usize, info_hash: InfoHash, announce: bool, tag: String },
+    /// a search whose stream the caller drops `after_ms` after requesting it (0: at once, "fire and forget");
+    /// items received until then are recorded, no End event is
+    SearchDrop { node: usize, info_hash: InfoHash, announce: bool, tag: String, after_ms: u64 },
     Bootstrapped { node: usize, tag: String },
     /// bootstrapped() whose future is dropped after `cancel_after_ms` if still pending
     BootstrappedCancel { node: usize, tag: String, cancel_after_ms: u64 },
@@ -213,6 +231,8 @@ pub enum Action {
     ProbeTable { node: usize, from: SocketAddr, tag: String },
     /// tell a scripted peer something (behaviour switch)
     PeerCommand { peer: SocketAddr, cmd: String },
+    /// the node's next recv_from returns an error of this kind (ConnectionReset, ConnectionRefused, Interrupted, Other)
+    RecvError { node: usize, kind: String },
 }
 
 #[derive(Clone, Debug, PartialEq)]
@@ -636,6 +656,28 @@ async fn run_inner(sc: &Scenario, mut peers: Vec<Box<dyn Peer>>, chooser: &mut d
                             });
                         }
                     }
+                    Action::SearchDrop { node, info_hash, announce, tag, after_ms } => {
+                        if let Some(dht) = dhts[*node].clone() {
+                            let api = api.clone();
+                            let tag = tag.clone();
+                            let (ih, ann, after) = (*info_hash, *announce, *after_ms);
+                            api.lock().unwrap().push(ApiEvent { t_ms: now, tag: tag.clone(), kind: ApiKind::Started });
+                            if after == 0 {
+                                drop(dht.search(ih, ann));
+                            } else {
+                                tokio::task::spawn(async move {
+                                    let mut s = dht.search(ih, ann);
+                                    drop(dht);
+                                    let deadline = tokio::time::Instant::now() + Duration::from_millis(after);
+                                    while let Ok(Some(a)) = tokio::time::timeout_at(deadline, s.next()).await {
+                                        let t = (Instant::now() - start).as_millis() as u64;
+                                        api.lock().unwrap().push(ApiEvent { t_ms: t, tag: tag.clone(), kind: ApiKind::Item(a) });
+                                    }
+                                    drop(s);
+                                });
+                            }
+                        }
+                    }
                     Action::Bootstrapped { node, tag } => {
                         if let Some(dht) = dhts[*node].clone() {
                             let api = api.clone();
@@ -685,6 +727,17 @@ async fn run_inner(sc: &Scenario, mut peers: Vec<Box<dyn Peer>>, chooser: &mut d
                                 let t = (Instant::now() - start).as_millis() as u64;
                                 api.lock().unwrap().push(ApiEvent { t_ms: t, tag, kind: ApiKind::LocalAddr(r) });
                             });
+                        }
+                    }
+                    Action::RecvError { node, kind } => {
+                        let mut n = net.inner.lock().unwrap();
+                        if let Some(ib) = n.inboxes.get_mut(&sc.nodes[*node].addr) {
+                            if ib.open {
+                                ib.queue.push_back((kind.as_bytes().to_vec(), recv_error_marker()));
+                                if let Some(w) = ib.waker.take() {
+                                    w.wake();
+                                }
+                            }
                         }
                     }
                     Action::Inject { from, to, bytes, .. } => {
